@@ -77,7 +77,13 @@ func TestVerifC04(t *testing.T) {
 	stt := vs.NewStats(t, "C04")
 	stt.Rule = "semi-sync clusters of 2-5 HA hosts (+0-1 cascade), configured count 1-3, both adjustment orders, semi_sync_enable_lag 1000 bytes, inactivation_delay 5s, converged by the real daemons; 1-4 transitions each made of 1-3 events from {replica crash, replica start, replication broken by an SQL error, cure, operator STOP REPLICA, errant transaction on a replica (divergence), slow download + large transactions (download lag), fast download, client writes, time jump 0/6/20 s}, each followed by 1-4 iterations of every process; the manager's iteration runs clean, or the manager is killed at its k-th external call (SQL statement or ZooKeeper write, k drawn up to the number of calls a clean iteration made), or its k-th statement fails, or the master's mysqld dies at the manager's k-th call; oracle: (a),(b) evaluated on ground truth before and after every manager iteration and replayed over every single change inside it; complete+clean+master healthy and writable+no pending request => (a) and (b) hold after; any iteration without pending maintenance/switch request: held before => hold after; list content after a complete clean iteration (no cascade / marked / diverged / broken or dead beyond the delay / download-lagging member); a member is removed from the list only while the master is up; non-trivial = an iteration changed the list or a semi-sync setting"
 	stt.Assumptions = simAssumptions
-	stt.Check(t, vs.CheckOpts{Bubble: true}, func(c *vs.Case) {
+	stt.Check(t, vs.CheckOpts{Bubble: true}, c04Prop(t))
+}
+
+// c04Prop is the history of TestVerifC04, driven by whatever source the case has (generator,
+// saved script, or an enumerated cell).
+func c04Prop(t *testing.T) func(c *vs.Case) {
+	return func(c *vs.Case) {
 		n := c.Src.Int("ha_hosts", 2, 5)
 		ha := []string{"h1", "h2", "h3", "h4", "h5"}[:n]
 		cfgCount := c.Src.Int("configured_count", 1, 3)
@@ -489,7 +495,12 @@ func TestVerifC04(t *testing.T) {
 						mode := c.Src.Pick("iteration.mode", "clean", "clean", "kill", "fail", "master-dies", "master-dies")
 						k := 0
 						if mode != "clean" {
-							k = c.Src.Int("iteration.k", 1, lastCalls+2)
+							// the iteration that performs a transition makes more calls than the clean one before it
+							kmax := lastCalls
+							if kmax < 40 {
+								kmax = 40
+							}
+							k = c.Src.Int("iteration.k", 1, kmax+30)
 							c.Class("mode:" + mode)
 						}
 						if calls := managerTick(p, mode, k); mode == "clean" && calls > 0 {
@@ -529,5 +540,87 @@ func TestVerifC04(t *testing.T) {
 		if changed {
 			c.NonTrivial()
 		}
+	}
+}
+
+// TestVerifC04Enumerate: the same history with the fault placed at EVERY call boundary of the
+// iteration that performs a given membership transition.
+func TestVerifC04Enumerate(t *testing.T) {
+	stt := vs.NewStats(t, "C04")
+	stt.Assumptions = simAssumptions
+	stt.Exhaustive = true
+	type D = vs.Draw
+	clean := func(n int) []D {
+		out := []D{{L: "iterations", V: n}}
+		for i := 0; i < n; i++ {
+			out = append(out, D{L: "iteration.mode", V: "clean"})
+		}
+		return out
+	}
+	ev := func(replica int, name string, sub ...D) []D {
+		return append([]D{{L: "event.replica", V: replica}, {L: "event", V: name}}, sub...)
+	}
+	cat := func(parts ...[]D) []D {
+		var out []D
+		for _, p := range parts {
+			out = append(out, p...)
+		}
+		return out
+	}
+	// each transition: draws up to (not including) the faulted iteration's mode
+	type tr struct {
+		name string
+		pre  []D
+	}
+	away := cat([]D{{L: "events", V: 2}}, ev(0, "crash"), ev(0, "advance", D{L: "advance", V: 2}), clean(3)) // replica 0 leaves the list
+	transitions := []tr{
+		{"join", cat([]D{{L: "transitions", V: 2}}, away, []D{{L: "events", V: 1}}, ev(0, "start"))},
+		{"death-beyond-the-delay", cat([]D{{L: "transitions", V: 2}}, []D{{L: "events", V: 1}}, ev(0, "crash"), clean(1), []D{{L: "events", V: 1}}, ev(0, "advance", D{L: "advance", V: 2}))},
+		{"broken-replication", cat([]D{{L: "transitions", V: 1}}, []D{{L: "events", V: 1}}, ev(0, "sql-error"))},
+		{"divergence", cat([]D{{L: "transitions", V: 1}}, []D{{L: "events", V: 1}}, ev(0, "errant"))},
+		{"join-with-download-lag", cat([]D{{L: "transitions", V: 2}}, away, []D{{L: "events", V: 2}}, ev(0, "slow-download"), ev(0, "start"))},
+		{"swap", cat([]D{{L: "transitions", V: 1}}, []D{{L: "events", V: 1}}, ev(0, "swap", D{L: "event.replica2", V: 1}))},
+	}
+	shapes := [][2]int{{3, 1}, {5, 2}} // (HA hosts, configured count)
+	orders := []bool{true, false}
+	modes := []string{"kill", "fail", "master-dies"}
+	maxK := 70
+	if vs.Tier() != "thorough" {
+		transitions = []tr{transitions[0], transitions[1], transitions[5]}
+		shapes = shapes[:1]
+		orders = orders[:1]
+		maxK = 60
+	}
+	if v := vs.Cases(0); v > 0 && v < maxK {
+		maxK = v
+	}
+	var cells [][]D
+	var names []string
+	for _, sh := range shapes {
+		for _, mf := range orders {
+			for _, x := range transitions {
+				for _, m := range modes {
+					for k := 1; k <= maxK; k++ {
+						cells = append(cells, cat([]D{{L: "ha_hosts", V: sh[0]}, {L: "configured_count", V: sh[1]}, {L: "master_first_order", V: mf}, {L: "cascade", V: 1}}, x.pre,
+							[]D{{L: "iterations", V: 1}, {L: "iteration.mode", V: m}, {L: "iteration.k", V: k}}))
+						names = append(names, fmt.Sprintf("%s n=%d count=%d master-first=%v %s k=%d", x.name, sh[0], sh[1], mf, m, k))
+					}
+				}
+			}
+		}
+	}
+	stt.Rule = fmt.Sprintf("fault enumeration: %d shapes (HA hosts, configured count) x %d adjustment orders x %d membership transitions (%s) x {manager killed, statement fails, master dies} at EVERY call k in [1,%d] of the manager iteration that performs the transition (k beyond the iteration's calls = no fault, counted trivial) = %d cells, each visited once; oracles of TestVerifC04", len(shapes), len(orders), len(transitions), func() string {
+		var n []string
+		for _, x := range transitions {
+			n = append(n, x.name)
+		}
+		return strings.Join(n, ", ")
+	}(), maxK, len(cells))
+	prop := c04Prop(t)
+	idx := 0
+	stt.Enumerate(t, vs.CheckOpts{Bubble: true}, cells, func(c *vs.Case) {
+		_ = idx
+		prop(c)
 	})
+	_ = names
 }
